@@ -10,7 +10,7 @@ use regex::Captures;
 use hir::{Config, HirSpec, Language, Location, Operation, Parameter};
 use mir::{import, Arg, Class, Doc, Field, File, Function, Ident, Import, Item, Ty, Visibility};
 
-use mir_rust::{derives_to_tokens, ToRustCode, ToRustIdent, ToRustType};
+use mir_rust::{derives_to_tokens, sanitize_filename, ToRustCode, ToRustIdent, ToRustType};
 
 use crate::{client::build_api_client_method, write_rust, Modified};
 use std::io::Result;
@@ -22,12 +22,13 @@ pub fn write_request_module(spec: &HirSpec, cfg: &Config, m: &mut Modified) -> R
     let mut modules: Vec<(Ident, Ident)> = vec![];
 
     for operation in &spec.operations {
+        // the module name must be a valid identifier (operation ids may be keywords or start with a digit)
+        let fname = sanitize_filename(&operation.file_name());
         modules.push((
-            Ident(operation.file_name()),
+            Ident(fname.clone()),
             operation.request_struct_name().to_rust_struct(),
         ));
         let file = make_single_module(operation, &spec, cfg);
-        let fname = operation.file_name();
         let path = src.join("request").join(&fname).with_extension("rs");
         write_rust(&path, file, m)?;
     }
